@@ -203,3 +203,22 @@ def c05_cpp_integer_literal_division(site, w):
         return False
     # numerator: an int literal or a ternary of int literals, closed by parentheses; denominator: an int literal
     return re.search(r"\(\d+\)\)*\s*/\s*\(\d+\)", src) is not None
+
+
+def c06_xla_integer_literal_division(site, w):
+    """XLA client target, compile-time (alternative-context) constant expressions: integer-valued constants are printed as C++ int literals (the C++
+    constant printer casts only for the concrete types float / std::complex, not for the opaque FloatType), so a division of two of them is an
+    integer division: ScalarLike(a, (1) / (3)) is 0"""
+    import re
+
+    if site != "xla_client:constant-expression-value":
+        return False
+    if not re.search(r"\(divide \(constant -?\d+, [^()]*\), \(constant -?\d+, ", w.get("expr", "")):
+        return False
+    if not re.search(r"\(-?\d+\)\s*/\s*\(-?\d+\)", w.get("text", "")):
+        return False
+    try:
+        got, want = float(_unfl(w["got"])), float(_unfl(w["want"]))
+    except Exception:
+        return False
+    return got == float(int(want))  # the truncated quotient
